@@ -32,6 +32,8 @@ class C10(F.Spec):
         n = 60 if tier == "quick" else 600
         for i in range(n):
             yield self.positioning(rng, i)
+        for i in range(n // 4):
+            yield self.positioning(rng, 10000 + i, edge=True)
         for i in range(n // 3):
             yield self.uncalibrated(rng, i)
         for i in range(n // 3):
@@ -49,8 +51,8 @@ class C10(F.Spec):
                 ops.append("pingreply")     # the server answers every ping (keep-alive is C05's subject)
                 acc = 0
 
-    def positioning(self, rng, i):
-        tt = rng.choice([0, 0, 0, 1, 2, 3])
+    def positioning(self, rng, i, edge=False):
+        tt = 2 if edge else rng.choice([0, 0, 0, 1, 2, 3])
         opening = 100 * rng.randint(10, 600)
         closing = rng.choice([opening, 100 * rng.randint(10, 600)])
         tms = 0 if tt == 0 else rng.choice([300, 1500, 100 * rng.randint(2, 30)])
@@ -64,6 +66,15 @@ class C10(F.Spec):
             t0 = 0
         g = rng.choice([0, 100, 50, p0, rng.randint(0, 100), rng.randint(0, 100)])
         gt = -1 if tt == 0 else rng.choice([-1, 0, 100, rng.randint(0, 100)])
+        if tt == 2 and (edge or rng.random() < 0.4):
+            # targets whose tilt correction reaches past an end stop (position + travel of the tilting > 100 or < 0)
+            tms = 100 * max(2, min(opening, closing) // rng.choice([500, 800, 1000]))
+            if edge:
+                p0, t0 = rng.randint(30, 70), rng.choice([0, 100, rng.randint(0, 100)])
+            if rng.random() < 0.5:
+                g, gt = rng.randint(88, 100), rng.randint(0, 60)
+            else:
+                g, gt = rng.randint(0, 12), rng.randint(40, 100)
         dur = ((opening // 100) << 16) | (closing // 100)
         ops = ["boot %d" % rng.choice([12345, 4294967295 - 20000000, rng.getrandbits(32) | 1]), "board rs1 0",
                "motor 3 %d %d %d" % (startup, opening, closing), "init", "calllog 1",
@@ -352,11 +363,29 @@ class C10(F.Spec):
                     if ivals and cmd_t:
                         t_cmd = cmd_t[-1]
                         t_off = max(b for a, b in ivals if b is not None)
-                        Fmax = max(me["opening"], me["closing"]) * 1000.0
-                        m = 1.10 if me["margin"] < 0 else max(0.05, me["margin"] / 100.0)
-                        bound = Fmax * (1.0 + max(m, 0.5)) + 3 * me["tms"] * 1000.0 + 2500000
-                        if t_off > t_cmd and t_off - t_cmd > bound:
-                            fs.append(F.Finding("task-too-slow", "task took %.1f s, bound %.1f s" % ((t_off - t_cmd) / 1e6, bound / 1e6)))
+                        # travel needed (from where the shutter was when the last command arrived) + the task's end-stop
+                        # margin of that direction + start/reversal delays + tilting; a roller shutter moves one way only
+                        if me["tt"] == 0 and len(me["cmds"]) == 1:
+                            start = 100 + 100 * me["p0"]
+                            goal = 100 + 100 * g
+                            Fdir = (me["opening"] if goal < start else me["closing"]) * 1000.0
+                            travel = abs(goal - start) / 10000.0 * Fdir
+                            meff = 5 if me["margin"] < 0 else me["margin"]
+                            if me["margin"] >= 0 and me["margin"] < 50:
+                                meff_hi = 50        # while the sensor reports movement the margin is at least 50 %
+                            else:
+                                meff_hi = meff
+                            mt = Fdir * meff_hi / 100.0 if g in (0, 100) else 0
+                            bound = travel + mt + 1300000 + 0.02 * Fdir + me["startup"] * 1000
+                            if t_off > t_cmd and t_off - t_cmd > bound:
+                                fs.append(F.Finding("task-too-slow", "roller shutter %d -> %d %%: task took %.2f s, travel %.2f s + margin %.2f s "
+                                                    "(bound %.2f s)" % (me["p0"], g, (t_off - t_cmd) / 1e6, travel / 1e6, mt / 1e6, bound / 1e6)))
+                        else:
+                            Fmax = max(me["opening"], me["closing"]) * 1000.0
+                            m = 1.10 if me["margin"] < 0 else max(0.05, me["margin"] / 100.0)
+                            bound = Fmax * (1.0 + max(m, 0.5)) + 3 * me["tms"] * 1000.0 + 2500000
+                            if t_off > t_cmd and t_off - t_cmd > bound:
+                                fs.append(F.Finding("task-too-slow", "task took %.1f s, bound %.1f s" % ((t_off - t_cmd) / 1e6, bound / 1e6)))
             else:
                 if last[0] == "stop" and still_on:
                     fs.append(F.Finding("stop-ignored", "outputs still on after a stop command"))
